@@ -126,14 +126,34 @@ impl Sample {
 
     /// verify sample with root hash from ExtendedHeader
     pub fn verify(&self, id: SampleId, dah: &DataAvailabilityHeader) -> Result<()> {
-        let root = match self.proof_type {
-            AxisType::Row => dah
-                .row_root(id.row_index())
-                .ok_or(Error::EdsIndexOutOfRange(id.row_index(), 0))?,
-            AxisType::Col => dah
-                .column_root(id.column_index())
-                .ok_or(Error::EdsIndexOutOfRange(0, id.column_index()))?,
+        let (root, index) = match self.proof_type {
+            AxisType::Row => (
+                dah.row_root(id.row_index())
+                    .ok_or(Error::EdsIndexOutOfRange(id.row_index(), 0))?,
+                id.column_index(),
+            ),
+            AxisType::Col => (
+                dah.column_root(id.column_index())
+                    .ok_or(Error::EdsIndexOutOfRange(0, id.column_index()))?,
+                id.row_index(),
+            ),
         };
+
+        // The proof must be for the single leaf located at the sampled position
+        // of the axis, in a tree as wide as the square. Otherwise a share from
+        // any other position of that row or column would verify too.
+        if self.proof.start_idx() != u32::from(index)
+            || self.proof.end_idx() != u32::from(index) + 1
+        {
+            bail_validation!(
+                "proof range ({}..{}) doesn't match the sample position ({index})",
+                self.proof.start_idx(),
+                self.proof.end_idx(),
+            );
+        }
+        if self.proof.total_leaves() != Some(usize::from(dah.square_width())) {
+            bail_validation!("proof is not for a tree of the square width");
+        }
 
         self.proof
             .verify_range(&root, &[&self.share], *self.share.namespace())
